@@ -441,3 +441,38 @@ func VerifC13Arbitrary() {
 	}
 	vReach("end")
 }
+
+// VerifC13Truncated: the server hangs up in the middle of a line. What arrived of that
+// line is not a message the server sent: after the disconnect the tracker still holds the
+// state the complete lines produced - the user is not renamed to a prefix of its new nick,
+// the topic is not a prefix of the new topic. Real Connect / recv / runLoop / Close with
+// the tracker on; the cut position is symbolic; schedules within the delay bound (so that
+// the event loop may take a queued line before the reader goes on to see the EOF).
+func VerifC13Truncated() {
+	vSetOpt("schedExplore", 1)
+	vSetOpt("maxSwitches", vParam("SW", 1))
+	vYieldKinds("yield chan")
+	cfg := NewConfig("me")
+	cfg.Server, cfg.Proxy, cfg.PingFreq, cfg.Flood = "srv:1", "vtest://p", 0, true
+	w := vNewLiveWire(":me!i@h JOIN #c\r\n:srv 353 me = #c :me @nn\r\n:srv 366 me #c :End\r\n")
+	vInstallDialer(&vDialer{wire: w})
+	conn := Client(cfg)
+	conn.EnableStateTracking()
+	err := conn.Connect()
+	vAssume(err == nil)
+	vRunPending()
+	full := []string{":nn!u@h NICK :nn234", ":nn!u@h TOPIC #c :new topic", ":nn!u@h NICK nn234"}[vLen("which", 0, 2)]
+	cut := vLen("cut", 1, len(full)-1)
+	w.feedEOF(full[:cut])
+	vRunPending()
+	st := conn.StateTracker()
+	ch := st.GetChannel("#c")
+	vAssert(!conn.Connected(), "truncated:disconnected")
+	if ch != nil { // (the tracker is wiped only by the next Connect)
+		vAssert(ch.Topic == "", "truncated:fragment-not-applied")
+		_, on := ch.Nicks["nn"]
+		vAssert(on && st.GetNick("nn") != nil, "truncated:fragment-not-applied")
+		vAssert(len(ch.Nicks) == 2, "truncated:fragment-not-applied")
+	}
+	vReach("end")
+}
